@@ -131,12 +131,17 @@ impl Scratch {
 
 impl Drop for Scratch {
     fn drop(&mut self) {
-        let _ = std::fs::remove_dir_all(&self.path);
+        // JJSIM_KEEP_SCRATCH=1 keeps the directory for post-mortem inspection
+        if std::env::var_os("JJSIM_KEEP_SCRATCH").is_none() {
+            let _ = std::fs::remove_dir_all(&self.path);
+        }
     }
 }
 
 pub fn cleanup_scratch_base() {
-    let _ = std::fs::remove_dir_all(scratch_base());
+    if std::env::var_os("JJSIM_KEEP_SCRATCH").is_none() {
+        let _ = std::fs::remove_dir_all(scratch_base());
+    }
 }
 
 // ---------------------------------------------------------------------------
